@@ -32,6 +32,9 @@ DECIDING = {
     "histories_with_2plus_subscribers": "several subscribers at once",
     "histories_with_leaving_subscriber": "a subscriber leaves while dispatching continues",
     "histories_with_abandoned_subscriber": "a subscriber that is gone: still subscribed but never reading again",
+    "histories_with_equal_owners": "several owner instances that compare and hash equal",
+    "failed_subscription_attempts": "subscriptions that must fail with UnboundSignal (and leave nothing behind)",
+    "relayed_events": "an already dispatched event object dispatched again on another channel",
     "drops_observed": "events lost by a subscriber because its queue was full",
     "accepted_checked": "accepted events whose backlog was checked against the queue size",
     "dispatches_with_overflow_warning": "dispatches that issued SignalQueueFull",
